@@ -484,42 +484,7 @@ func runC14(r *Run) {
 	})
 
 	r.rule("R7", "what the cache hands to an external Storage is not its own scratch memory (E3): a storage may keep the slice, so a reused buffer would rewrite stored entries", func() {
-		n := 0
-		r.P.AllFuncs(cachePkg, func(f *ssa.Function) {
-			for _, c := range callsIn(f, false) {
-				if !c.Common.IsInvoke() || c.Common.Method.Name() != "Set" || !strings.HasSuffix(c.Common.Value.Type().String(), "fiber/v3.Storage") {
-					continue
-				}
-				n++
-				val := c.Common.Args[1]
-				okBuf, why := true, ""
-				// produced by the generated codec: its destination buffer must be nil (fresh allocation)
-				if d := dependsOn(val, func(v ssa.Value) bool {
-					cc, ok := v.(*ssa.Call)
-					return ok && strings.HasSuffix(calleeName(&cc.Call), ").MarshalMsg")
-				}); d != nil {
-					mc := d.(*ssa.Call)
-					buf := mc.Call.Args[len(mc.Call.Args)-1]
-					if !constIsNil(asConst(buf)) {
-						okBuf, why = false, "MarshalMsg appends to a caller-supplied buffer"
-					}
-				}
-				// never memory that the manager itself keeps between calls
-				if d := dependsOn(val, func(v ssa.Value) bool {
-					fv := fieldOfValue(v)
-					if fv == nil || fieldOwner(fv) != "cache.manager" {
-						return false
-					}
-					_, isSlice := fv.Type().Underlying().(*types.Slice)
-					return isSlice
-				}); d != nil {
-					okBuf, why = false, "the value is (a slice of) a field of the manager"
-				}
-				r.check(okBuf, fmt.Sprintf("%s:Storage.Set#%d:fresh-bytes", short(f.String()), n), r.pos(c.Instr), "the stored bytes are freshly allocated or the caller's own value",
-					"the bytes handed to Storage.Set are reused by the cache ("+why+"): a storage that keeps the slice (the bundled memory storage does) sees entry A's metadata overwritten when entry B is stored — a hit on A is served with B's status, headers and expiry")
-			}
-		})
-		r.atLeast("Storage.Set call sites in the cache", n, 2)
+		storageSetFreshBytesRule(r, cachePkg, "cache", 2)
 	})
 
 	r.rule("R8", "function-valued Config fields the middleware calls are never nil (E1): set by configDefault on every path, also when no config is passed", func() {
@@ -623,6 +588,73 @@ func runC14(r *Run) {
 		}
 		folds := len(callsMatching(f, false, nameIs("strings.EqualFold")))
 		r.atLeast("directive searches", n+folds, 1)
+	})
+
+	r.rule("R12", "what the cache keeps of a response is copied out of it: the bytes stored in an item — body, content type, encoding, and both the names and the values of the stored headers — are copies, not views of the response's (or a header visitor's) buffers, which the next response written through the same context overwrites (E3)", func() {
+		_, h := cacheHandler(r)
+		isCopy := func(v ssa.Value) bool {
+			for {
+				if ct, ok := v.(*ssa.ChangeType); ok {
+					v = ct.X
+					continue
+				}
+				break
+			}
+			switch x := v.(type) {
+			case *ssa.Const, *ssa.MakeMap, *ssa.MakeSlice:
+				return true
+			case *ssa.Convert:
+				return isByteSeq(x.Type()) && isByteSeq(x.X.Type()) && !types.Identical(x.Type().Underlying(), x.X.Type().Underlying())
+			case *ssa.Call:
+				n := calleeName(&x.Call)
+				return strings.HasSuffix(n, "utils/v2.CopyBytes") || strings.HasSuffix(n, "utils/v2.CopyString") || n == "strings.Clone" || n == "bytes.Clone" || strings.HasPrefix(n, "slices.Clone") ||
+					strings.HasSuffix(n, "cache.manager).getRaw") || n == "strings.ToLower" || n == "strings.ToUpper"
+			}
+			return false
+		}
+		isView := func(v ssa.Value) bool {
+			switch x := v.(type) {
+			case *ssa.Parameter:
+				return isByteSeq(x.Type()) // a visitor's key / value
+			case *ssa.Call:
+				n := calleeName(&x.Call)
+				return strings.Contains(n, "valyala/fasthttp") || strings.HasSuffix(n, "utils/v2.UnsafeString") || strings.HasSuffix(n, "utils/v2.UnsafeBytes")
+			}
+			return false
+		}
+		n := 0
+		judge := func(what string, v ssa.Value, at ssa.Instruction) {
+			n++
+			r.check(isCopy(v) || dependsOn(v, isView) == nil, fmt.Sprintf("store:%s#%d:copied", what, n), r.pos(at), "the stored bytes are a copy (or do not come from the response at all)",
+				"the cache keeps a view of the response's memory in "+what+": with the in-memory store the next response written through the same context (a keep-alive connection) overwrites it, and a later hit is served with another response's header name / bytes")
+		}
+		fs := append([]*ssa.Function{h}, anonFuncsDeep(h)...)
+		for _, g := range fs {
+			withinFunction(g, func() {
+				for _, b := range g.Blocks {
+					for _, in := range b.Instrs {
+						switch x := in.(type) {
+						case *ssa.Store:
+							fa, ok := x.Addr.(*ssa.FieldAddr)
+							if !ok {
+								continue
+							}
+							fv := fieldVar(fa.X.Type(), fa.Field)
+							if fv == nil || fieldOwner(fv) != "cache.item" || !isByteSeq(fv.Type()) {
+								continue
+							}
+							judge("cache.item."+fv.Name(), x.Val, in)
+						case *ssa.MapUpdate:
+							if fv := fieldOfValue(stripValue(x.Map)); fv != nil && fieldOwner(fv) == "cache.item" {
+								judge("cache.item."+fv.Name()+"(name)", x.Key, in)
+								judge("cache.item."+fv.Name()+"(value)", x.Value, in)
+							}
+						}
+					}
+				}
+			})
+		}
+		r.atLeast("stores of response bytes into the item", n, 5)
 	})
 }
 
